@@ -186,6 +186,7 @@ func C11(c *Ctx) {
 	r.Rule("R11.2", "one atomic state write: SimpleLedger.Commit puts the block's data, its journal record and the max-height marker into one storage batch, commits that batch exactly once, touches the state store directly (outside the batch) nowhere before that commit, and updates the in-memory height / prunes old journals only after it.")
 	r.Rule("R11.3", "start-up reconciliation: ledger.New returns a ledger only across the success edge of Rollback(chain meta height); NewChainLedgerImpl compares the blockfile size with the chain meta and truncates the surplus before returning; NewSimpleLedger refuses to open when the journal of its recorded height is missing.")
 	r.Rule("R11.4", "no dropped persistence error: the error results of StateLedger.Commit, PersistExecutionResult, AppendBlock, TruncateBlocks, persistChainMeta, removeJournalsBeforeBlock, RollbackState and RollbackBlockChain are tested at every call site of the ledger / executor / genesis packages, and the failure edge ends in a panic or an error return.")
+	r.Rule("R11.5", "markers mirror fields: wherever a function of the state ledger persists a journal window marker (minHeight / maxHeight, outside a loop) and assigns the corresponding in-memory field (minJnlHeight / maxJnlHeight), both receive the same height; the reopened ledger derives its rollback window from the markers.")
 	r.NotDecided = append(r.NotDecided, "the set of on-disk states after a crash (leveldb batch atomicity and blockfile repair() are trusted); crash during a rollback (RollbackBlockChain truncates the blockfile before it commits the index batch: reported as information); re-execution equivalence after recovery; the ethdb-backed (complex) state ledger's own commit protocol")
 
 	isStateCommit := func(in ssa.Instruction) bool {
@@ -490,6 +491,7 @@ func C11(c *Ctx) {
 	if rbk := c.fn("R11.1", chainPrefix+"RollbackBlockChain"); rbk != nil {
 		r.Note("R11.1", "RollbackBlockChain: blockfile truncated before the index batch commits", c.P.Pos(rbk.Pos()), "a crash during a rollback can leave the chain meta above the blockfile; not part of a block commit, see DESIGN.md")
 	}
+	c.markerFieldAgreement()
 }
 
 // chainBatchDiscipline: nothing on the chain-store persist / rollback path writes around the block's batch.
@@ -605,4 +607,59 @@ func (c *Ctx) blockfileReconciled(fn *ssa.Function, isH func(ssa.Value) bool, er
 		}
 	}
 	return true, ok && argOK
+}
+
+// markerFieldAgreement: R11.5 - the persisted journal markers mirror the in-memory fields.
+func (c *Ctx) markerFieldAgreement() {
+	r := c.R
+	pairs := map[string]string{"minHeight": "minJnlHeight", "maxHeight": "maxJnlHeight"}
+	n := 0
+	for _, fn := range c.P.ModuleFuncs(true) {
+		if core.PkgOf(fn) != ledgerPkg || len(fn.Blocks) == 0 {
+			continue
+		}
+		for _, call := range core.Calls(fn) {
+			o := core.CalleeObj(call)
+			if o == nil || o.Name() != "Put" || len(call.Common().Args) < 2 {
+				continue
+			}
+
+			args := call.Common().Args
+			key, val := args[len(args)-2], args[len(args)-1]
+			marker := ""
+			core.Mentions(key, func(v ssa.Value) bool {
+				if s, ok := core.ConstString(v); ok && pairs[s] != "" {
+					marker = s
+				}
+				// the marker names are package-level variables (minHeightStr = "minHeight")
+				if g, ok := v.(*ssa.Global); ok && pairs[strings.TrimSuffix(g.Name(), "Str")] != "" {
+					marker = strings.TrimSuffix(g.Name(), "Str")
+				}
+				return false
+			})
+			if marker == "" {
+				continue
+			}
+			// the height that is marshalled
+			var h ssa.Value
+			if cc, _ := core.CallOf(val); cc != nil && strings.HasSuffix(core.CalleeName(cc), "marshalHeight") && len(cc.Call.Args) == 1 {
+				h = cc.Call.Args[0]
+			}
+			if h == nil || core.InLoop(call) {
+				continue // written per iteration (RollbackState lowers the marker step by step): decided by R12.3
+			}
+			field := pairs[marker]
+			for _, in := range sites(fn, storesToField("SimpleLedger", field)) {
+				st := in.(*ssa.Store)
+				// only stores that belong to this marker write: same branch (one reaches the other)
+				if !core.Reach([]core.Point{core.After(call)}, nil, nil).Has(in) && !core.Reach([]core.Point{core.After(in)}, nil, nil).Has(call) {
+					continue
+				}
+				n++
+				r.Check(sameValue(st.Val, h), "R11.5", fmt.Sprintf("%s: marker %s = field %s #%d", shortLedger(fn), marker, field, n), c.P.Pos(call.Pos()), "the height marshalled into the marker is the height stored into the field",
+					"the persisted journal marker "+marker+" is written with a different height than the in-memory field "+field+" receives: after a restart the ledger loads a window that does not match the journals on disk (a crash between the state commit and the chain commit then cannot be rolled back: ErrorRollbackTooMuch / missing journal)")
+			}
+		}
+	}
+	r.Floor("R11.5", "journal marker writes paired with their field", n, 2)
 }
